@@ -97,23 +97,35 @@ Proof.
 Qed.
 
 (* the tail of spheregroup(): for ANY labelling that is constant exactly on the friends-of-friends
-   classes, given with its true lists, the four returned arrays are the specification's *)
-Theorem spheregroup_tail_spec : forall n link lab0,
+   classes, given with arrays that agree with its true lists and a group count that is large enough,
+   the four returned arrays are the specification's *)
+Theorem spheregroup_tail_spec_gen : forall n link lab0 ing0 f0 nx0 K,
   (forall i j, i < n -> j < n -> (lab0 i = lab0 j <-> clos_refl_sym_trans nat (R n link) i j)) ->
-  renumber_model n (fun i => Z.of_nat (lab0 i)) (first_of n lab0) (next_of n lab0) (ngroups n link)
-  = spec_output n link.
+  (forall i, i < n -> ing0 i = Z.of_nat (lab0 i)) ->
+  (forall g, f0 g = first_of n lab0 g) ->
+  (forall i, i < n -> nx0 i = next_of n lab0 i) ->
+  ngroups n link <= K ->
+  renumber_model n ing0 f0 nx0 K = spec_output n link.
 Proof.
-  intros n link lab0 H.
-  rewrite (ngroups_is_nfirst n link lab0 H), renumber_refines. unfold spec_output. cbv zeta.
+  intros n link lab0 ing0 f0 nx0 K H Hi Hf Hn HK.
+  rewrite (renumber_refines_gen n lab0 ing0 f0 nx0 K Hi Hf Hn)
+    by (rewrite <- (ngroups_is_nfirst n link lab0 H); exact HK).
+  unfold spec_output. cbv zeta.
   assert (Hc : forall i, i < n -> canon n lab0 i = nth i (components n link) 0).
-  { intros i Hi. rewrite (canon_is_label n link lab0 H i Hi).
-    symmetry. apply nth_error_nth. apply components_nth. exact Hi. }
+  { intros i Hi'. rewrite (canon_is_label n link lab0 H i Hi').
+    symmetry. apply nth_error_nth. apply components_nth. exact Hi'. }
   f_equal.
   - rewrite <- (map_map (canon n lab0) Z.of_nat). f_equal.
     apply nth_ext with (d := 0) (d' := 0).
     + rewrite map_length, seq_length. unfold components. cbv zeta. rewrite map_length, seq_length. reflexivity.
-    + intros i Hi. rewrite map_length, seq_length in Hi.
-      rewrite (nth_indep _ 0 (canon n lab0 0)) by (rewrite map_length, seq_length; exact Hi).
-      rewrite map_nth, seq_nth by exact Hi. apply Hc. exact Hi.
+    + intros i Hi'. rewrite map_length, seq_length in Hi'.
+      rewrite (nth_indep _ 0 (canon n lab0 0)) by (rewrite map_length, seq_length; exact Hi').
+      rewrite map_nth, seq_nth by exact Hi'. apply Hc. exact Hi'.
   - apply lists_of_ext. exact Hc.
 Qed.
+
+Theorem spheregroup_tail_spec : forall n link lab0,
+  (forall i j, i < n -> j < n -> (lab0 i = lab0 j <-> clos_refl_sym_trans nat (R n link) i j)) ->
+  renumber_model n (fun i => Z.of_nat (lab0 i)) (first_of n lab0) (next_of n lab0) (ngroups n link)
+  = spec_output n link.
+Proof. intros. apply (spheregroup_tail_spec_gen n link lab0); auto. Qed.
